@@ -48,7 +48,7 @@ class BigMapType(MapType, prim='big_map', args_len=2):
             return f'{{{", ".join(elements)}}}'
 
     def __deepcopy__(self, memodict):
-        res = self.duplicate()
+        res = self._copy()
         # NOTE: follow the context if it is being copied along (e.g. interpreter state backup)
         res.context = memodict.get(id(self.context), self.context)
         return res
@@ -206,6 +206,8 @@ class BigMapType(MapType, prim='big_map', args_len=2):
 
     def get(self, key: MichelsonType, dup=True) -> Optional[MichelsonType]:
         self.args[0].assert_type_equal(type(key))
+        if dup:
+            assert self.args[1].is_duplicable(), f'use GET_AND_UPDATE instead'
         val = next((v for k, v in self if k == key), Undefined)  # search in diff
         if val is Undefined:
             assert self.context, f'context is not attached'
@@ -245,6 +247,10 @@ class BigMapType(MapType, prim='big_map', args_len=2):
         return forge_script_expr(key.pack(legacy=True))
 
     def duplicate(self):
+        assert self.is_duplicable(), f'{self.prim} is not duplicable'
+        return self._copy()
+
+    def _copy(self):
         res = type(self)(
             items=deepcopy(self.items),
             ptr=self.ptr,
